@@ -838,6 +838,7 @@ pub mod futs_r0 {
     #[savefile_abi_exportable(version = 0)]
     pub trait FLedger {
         fn plain(&self) -> Pin<Box<dyn Future<Output = u32>>>;
+        fn unpin(&self) -> Pin<Box<dyn Future<Output = u64> + Unpin>>;
         fn rep(&self) -> Pin<Box<dyn Future<Output = Rep>>>;
     }
 }
@@ -855,6 +856,7 @@ pub mod futs_r1 {
     #[savefile_abi_exportable(version = 1)]
     pub trait FLedger {
         fn plain(&self) -> Pin<Box<dyn Future<Output = u32>>>;
+        fn unpin(&self) -> Pin<Box<dyn Future<Output = u64> + Unpin>>;
         fn rep(&self) -> Pin<Box<dyn Future<Output = Rep>>>;
     }
 }
@@ -870,14 +872,30 @@ pub mod futs_b_send_added {
     #[savefile_abi_exportable(version = 0)]
     pub trait FLedger {
         fn plain(&self) -> Pin<Box<dyn Future<Output = u32> + Send>>;
+        fn unpin(&self) -> Pin<Box<dyn Future<Output = u64> + Unpin + Send>>;
+        fn rep(&self) -> Pin<Box<dyn Future<Output = Rep>>>;
+    }
+}
+pub mod futs_b_send_added_unpin_only {
+    // BREAKING w.r.t. r0: only the future that already had a bound (Unpin) is now also required to be Send
+    use savefile_derive::{savefile_abi_exportable, Savefile};
+    use std::future::Future;
+    use std::pin::Pin;
+    #[derive(Savefile)]
+    pub struct Rep {
+        pub a: u32,
+    }
+    #[savefile_abi_exportable(version = 0)]
+    pub trait FLedger {
+        fn plain(&self) -> Pin<Box<dyn Future<Output = u32>>>;
+        fn unpin(&self) -> Pin<Box<dyn Future<Output = u64> + Unpin + Send>>;
         fn rep(&self) -> Pin<Box<dyn Future<Output = Rep>>>;
     }
 }
 /// per returned future: which bounds it LACKS (a recorded "lacks X" must still be lacking in the runner)
 fn futs_view(bounds_plain: &'static str, bounds_unpin: &'static str, rep: &'static str) -> Vec<(&'static str, &'static str)> {
-    let _ = bounds_unpin;
-    let mut v = vec![("plain", "()->Future<u32>"), ("rep", rep)];
-    for (m, b) in [("plain", bounds_plain)] {
+    let mut v = vec![("plain", "()->Future<u32>"), ("unpin", "()->Future<u64>"), ("rep", rep)];
+    for (m, b) in [("plain", bounds_plain), ("unpin", bounds_unpin)] {
         for bound in ["Send", "Sync", "Unpin"] {
             if !b.contains(bound) {
                 let key: &'static str = Box::leak(format!("{}<lacks {}>", m, bound).into_boxed_str());
@@ -895,6 +913,9 @@ fn futs_view_r1(v: u32) -> Vec<(&'static str, &'static str)> {
 }
 fn futs_view_b_send(_v: u32) -> Vec<(&'static str, &'static str)> {
     futs_view("Send", "Unpin+Send", "()->Future<Rep{a}>")
+}
+fn futs_view_b_send_unpin_only(_v: u32) -> Vec<(&'static str, &'static str)> {
+    futs_view("", "Unpin+Send", "()->Future<Rep{a}>")
 }
 
 macro_rules! rev {
@@ -928,6 +949,7 @@ pub fn revisions() -> Vec<Rev> {
         rev!("futs", "futs_r0", 0, futs_view_r0, dyn futs_r0::FLedger, "initial revision: two methods returning boxed futures (plain u32 output / struct output)"),
         rev!("futs", "futs_r1", 1, futs_view_r1, dyn futs_r1::FLedger, "compatible: the Output struct of a returned future gains a versioned field"),
         rev!("futs", "futs_b_send_added", 0, futs_view_b_send, dyn futs_b_send_added::FLedger, "BREAKING: returned futures now required to be Send"),
+        rev!("futs", "futs_b_send_added_unpin_only", 0, futs_view_b_send_unpin_only, dyn futs_b_send_added_unpin_only::FLedger, "BREAKING: the Unpin future is now also required to be Send"),
         rev!("objs", "objs_r0", 0, objs_view_r0, dyn objs_r0::OLedger, "initial revision (closures, boxed traits, boxed futures)"),
         rev!("objs", "objs_r1", 1, objs_view_r1, dyn objs_r1::OLedger, "compatible: new method taking &mut dyn FnMut"),
         rev!("objs", "objs_b_closure_arg", 0, objs_view_b_closure, dyn objs_b_closure_arg::OLedger, "BREAKING: argument type of a closure argument changed"),
